@@ -14,23 +14,25 @@ SOURCES = ['/src/a/', '/src/b/']
 SETUP = {
     'ra': {
         'et': 'type.a',
-        'props': {'name': 'o.str', 'n': 'o.byte', 'flag': 'o.bool', 'tags': 'o.str', 'first': 'o.str'},
+        'props': {'name': 'o.str', 'n': 'o.byte', 'flag': 'o.bool', 'tags': 'o.tag', 'first': 'o.str'},
         'optional': ['n', 'flag', 'tags', 'first'], 'multi': ['tags'],
         'map': {'name': 'name', 'sub.n': 'n', 'flag': 'flag', 'tags': 'tags', 'items.0.v': 'first'},
     },
     'rb': {
         'et': 'type.b',
-        'props': {'name': 'o.str', 'when': 'o.dt', 'n': 'o.byte'},
-        'optional': ['when', 'n'], 'multi': [],
-        'map': {'title': 'name', 'meta.when': 'when', 'meta.count': 'n'},
+        'props': {'name': 'o.str', 'when': 'o.dt', 'n': 'o.byte', 'label': 'o.str', 'shout': 'o.str'},
+        'optional': ['when', 'n', 'label', 'shout'], 'multi': [],
+        # one record field feeds three properties, two of which have a post processor
+        'map': {'title': ['name', 'label', 'shout'], 'meta.when': 'when', 'meta.count': 'n'},
+        'post': {'label': 'label', 'shout': 'shout'},
     },
 }
-OBJECT_TYPES = {'o.str': 'string:0:mc:u', 'o.byte': 'number:tinyint', 'o.bool': 'boolean', 'o.dt': 'datetime'}
+OBJECT_TYPES = {'o.str': 'string:0:mc:u', 'o.byte': 'number:tinyint', 'o.bool': 'boolean', 'o.dt': 'datetime', 'o.tag': 'string:3:mc:u'}
 
 NAMES = ['alice', 'bob', '', None, ' x ', 'é<&>', 'a\nb']
 NUMS = [0, 7, 255, '7', '007', ' 7', 256, -1, 'x', None, '', 3.0]
 FLAGS = [True, False, 'true', 'True', 'yes', None]
-TAGS = [['t1', 't2'], [], ['t1', ''], 't1', None, ['t1', 't1']]
+TAGS = [['t1', 't2'], [], ['t1', ''], 't1', None, ['t1', 't1'], ['aaaaaa', 't1'], ['t0', 'zzzzzz'], ['t1', 'mmmmmm', 't9'], ['aaaaaa']]
 WHENS = ['2020-01-01T00:00:00.000000Z', '2020-01-01T12:00:00+02:00', 'yesterday', None, '2020-02-30T00:00:00.000000Z']
 
 
@@ -63,8 +65,15 @@ def gen_case(rng):
             ops.append(['set_source', rng.choice(SOURCES)])
         else:
             ops.append(['record', gen_record(rng)])
-    return {'ops': ops, 'ignore_invalid': rng.random() < 0.5, 'repair_normalize': rng.random() < 0.5, 'repair_drop': rng.random() < 0.3,
+    case = {'ops': ops, 'ignore_invalid': rng.random() < 0.5, 'repair_normalize': rng.random() < 0.5, 'repair_drop': rng.random() < 0.3,
             'fallback': rng.random() < 0.3, 'to_file': rng.random() < 0.5, 'initial_source': True, 'multi_yield': rng.random() < 0.5}
+    if not case['ignore_invalid'] and rng.random() < 0.4:
+        # ignore_invalid_events() is called in mid session, just before the op with this index
+        case['ignore_at'] = rng.randint(1, max(1, len(ops) - 1))
+    return case
+
+
+POST = {'label': lambda v: ['label of %s' % (v,)], 'shout': lambda v: [str(v).upper() + '!']}
 
 
 def make_transcoders(case):
@@ -82,6 +91,7 @@ def make_transcoders(case):
             PROPERTY_MAP = {cfg['et']: dict(cfg['map'])}
             TYPE_AUTO_REPAIR_NORMALIZE = {cfg['et']: [p for p in ('n', 'when', 'flag') if p in cfg['props']]} if case['repair_normalize'] else {}
             TYPE_AUTO_REPAIR_DROP = {cfg['et']: [p for p in ('n', 'when') if p in cfg['props']]} if case['repair_drop'] else {}
+            TYPE_PROPERTY_POST_PROCESSORS = {cfg['et']: {p: POST[f] for p, f in cfg.get('post', {}).items()}}
 
             def create_object_types(self, ontology):
                 for name, dt in OBJECT_TYPES.items():
@@ -111,6 +121,7 @@ def make_transcoders(case):
             PROPERTY_MAP = {'type.f': dict(cfg['map'])}
             TYPE_AUTO_REPAIR_NORMALIZE = {}
             TYPE_AUTO_REPAIR_DROP = {}
+            TYPE_PROPERTY_POST_PROCESSORS = {}
         ts[None] = F
     return ts
 
@@ -134,7 +145,9 @@ def run_case(case):
         m.add_event_source('/src/a/')
         m.set_event_source('/src/a/')
     chunks, calls = [], []
-    for op in case['ops']:
+    for k, op in enumerate(case['ops']):
+        if case.get('ignore_at') == k:
+            m.ignore_invalid_events()
         try:
             if op[0] == 'add_source':
                 m.add_event_source(op[1])
@@ -206,7 +219,10 @@ def raw_properties(rt_cfg, rec):
             vals = ['true' if v else 'false']
         else:
             vals = [v] if v != '' else []
-        props[prop] = vals
+        for name in (prop if isinstance(prop, list) else [prop]):
+            # every property gets the values of the field; a post processor applies to its own property only
+            f = rt_cfg.get('post', {}).get(name)
+            props[name] = [y for x in vals for y in POST[f](x)] if f else list(vals)
     return props
 
 
@@ -291,8 +307,18 @@ class C17(Property):
                 'sources); non-trivial = at least one written and one rejected event; distinct by content')
 
     def generate(self, rng, tier):
-        for _ in range(200 if tier == 'quick' else 5000):
-            yield gen_case(rng)
+        for i in range(200 if tier == 'quick' else 5000):
+            case = gen_case(rng)
+            if i % 8 == 7:
+                # a record that yields several events of which an earlier one is invalid and a later one valid, processed
+                # after ignore_invalid_events() was called in mid session (then the mediator, not the writer, skips it)
+                case.update(multi_yield=True, ignore_invalid=False, repair_drop=False)
+                rec = {'type': 'ra', 'name': rng.choice(['alice', 'bob']), 'sub': {'n': rng.choice([0, 7, 255])}, 'flag': True,
+                       'tags': rng.choice([['aaaaaa', 't1'], ['t1', 'mmmmmm', 't9'], ['bbbbbb', 'cccccc', 't2']]), 'items': []}
+                k = rng.randint(0, len(case['ops']))
+                case['ops'] = case['ops'][:k] + [['record', rec]] + case['ops'][k:]
+                case['ignore_at'] = rng.randint(0, k)
+            yield case
 
     def observe(self, case):
         return run_case(case)
@@ -330,8 +356,11 @@ class C17(Property):
     def requests(self, case):
         types = ['type.a', 'type.b'] + (['type.f'] if case['fallback'] else [])
         ops, _ = self.abstract_ops(case)
-        return [{'op': 'mediator', 'types': types, 'ignoreInvalid': case['ignore_invalid'], 'sources': ['/src/a/'], 'cur': '/src/a/',
-                 'ops': [{k: v for k, v in o.items() if k != 'n'} for o in ops]}]
+        req = {'op': 'mediator', 'types': types, 'ignoreInvalid': case['ignore_invalid'], 'sources': ['/src/a/'], 'cur': '/src/a/',
+               'ops': [{k: v for k, v in o.items() if k != 'n'} for o in ops]}
+        if case.get('ignore_at') is not None:
+            req['ignoreFrom'] = case['ignore_at']
+        return [req]
 
     def predict(self, case, replies):
         r = replies[0]
@@ -385,16 +414,17 @@ class C17(Property):
         # expected events: records whose events are valid as generated are written as generated
         want_min = []      # events that must be present (valid as generated, call did not raise)
         states = self.source_states(case)
-        for (op, c), (defined, cur) in zip(zip(case['ops'], obs['calls']), states):
+        for k, ((op, c), (defined, cur)) in enumerate(zip(zip(case['ops'], obs['calls']), states)):
             if op[0] != 'record':
                 continue
+            ignoring = case['ignore_invalid'] or (case.get('ignore_at') is not None and k >= case['ignore_at'])
             for status, et, exp in classify_all(case, op[1]):
                 if status == 'valid' and cur not in defined:
                     status = 'invalid'      # the event refers to a source that no ontology defines
                     exp = dict(exp, bad=['source-uri'])
                 if status == 'valid' and c is None:
                     want_min.append({'type': et, 'source': cur, 'props': sorted([k, v] for k, v in exp['props'].items())})
-                if status == 'invalid' and c is None and not case['ignore_invalid'] and not (case['repair_normalize'] or case['repair_drop']):
+                if status == 'invalid' and c is None and not ignoring and not (case['repair_normalize'] or case['repair_drop']):
                     return 'record %s gives an invalid event (%s), invalid events are not ignored and not repaired, but process() did not raise' % (
                         json.dumps(op[1], ensure_ascii=False, default=str)[:200], exp['bad'])
         got = [{'type': e['type'], 'source': e['source'], 'props': e['props']} for e in obs['events']]
